@@ -102,6 +102,25 @@ partial def flagsOK (ents : List (Nat × Nat × Bool × Nat)) (viaAVPField : Lis
      | none => true) &&
     (match a.data with | .group kids => flagsOK ents viaAVPField kids | _ => true) && flagsOK ents viaAVPField r
 
+/-- the typed value of every AVP the dictionary entries describe is of the entry's data type
+    ("same code, vendor id, M and V flags and typed value" as a caller would build by hand) -/
+partial def typesOK (ents : List (Nat × Nat × Bool × Nat)) (viaAVPField : List Nat) : List AVP → Bool
+  | [] => true
+  | a :: r =>
+    (match ents.find? (fun e => e.1 = a.code) with
+     | some (_, _, _, t) =>
+       viaAVPField.contains a.code ||
+       (match a.data with
+        | .str t' _ => t' == t
+        | .fix t' _ => t' == t
+        | .addr _ => t == 1
+        | .ip4 _ => t == 9
+        | .ip6 _ => t == 18
+        | .time _ => t == 14
+        | .group _ => t == 7)
+     | none => true) &&
+    (match a.data with | .group kids => typesOK ents viaAVPField kids | _ => true) && typesOK ents viaAVPField r
+
 /-- codes of fields whose Go type is diam.AVP / *AVP / []*AVP: those AVPs are the caller's own -/
 partial def avpFieldCodes (find : FindFn) : Shape → List Nat
   | .struct fs => fs.flatMap (fun f =>
@@ -160,6 +179,8 @@ def judgeReflect (impl : List String) : Judged :=
         | some ias =>
           if ¬ flagsOK ents (avpFieldCodes find (.struct fs)) ias then
             fails := fails ++ ["C18:avp-flags-or-vendor-not-from-dictionary"]
+          if ¬ typesOK ents (avpFieldCodes find (.struct fs)) ias then
+            fails := fails ++ ["C18:typed-value-not-of-the-dictionary's-data-type"]
         | none => pure ()
         if (kv impl "len").getD "ok" ≠ "ok" then fails := fails ++ ["C02:header-length-after-marshal", "C18:header-length-after-marshal"]
         match again with
